@@ -89,6 +89,10 @@ func (b *Built) build(e *Expr, h *Hooks) parsley.Parser {
 			p = text.RightTrim(ks[0], text.WsMode(e.C))
 		case OpLTrim:
 			p = text.LeftTrim(ks[0], text.WsMode(e.C))
+		case OpSingle:
+			p = combinator.Single(ks[0])
+		case OpSuppress:
+			p = combinator.SuppressError(ks[0])
 		case OpOpt:
 			p = combinator.Optional(ks[0])
 		case OpMany:
